@@ -9,7 +9,7 @@ rm -rf $WT; git -C /repo worktree prune; git -C /repo worktree add --detach $WT 
 pkgdir=$(grep -m1 -o 'package directory[^*]*' $M/demo_test.go | head -1)
 # demo placement: first line comment names the dir; fall back to the directory of the first patched file
 ddir=$(grep -m1 '^+++ b/' $M/patch.diff | sed 's#^+++ b/##; s#/[^/]*$##')
-hint=$(head -5 $M/demo_test.go | grep -o '[a-z]*/[a-zA-Z/]*' | head -1)
+hint=$(head -5 $M/demo_test.go | grep -o '[a-z][a-zA-Z0-9]*/[a-zA-Z0-9/]*' | grep -v '^http' | head -1)
 [ -n "$hint" ] && [ -d "$WT/$hint" ] && ddir=$hint
 cp $M/demo_test.go $WT/$ddir/zz_seed_demo_test.go
 ( cd $WT/$ddir && go test -vet=off -count=1 -run . . > /tmp/seed_$ID.base 2>&1 ); base=$?
@@ -17,7 +17,7 @@ git -C $WT apply $M/patch.diff || { echo "patch does not apply"; git -C /repo wo
 ( cd $WT && go build ./... ) > /tmp/seed_$ID.build 2>&1; build=$?
 ( cd $WT/$ddir && go test -vet=off -count=1 -run . . > /tmp/seed_$ID.mut 2>&1 ); mut=$?
 rm $WT/$ddir/zz_seed_demo_test.go
-( cd $WT && go test -vet=off -count=1 ./... 2>&1 | grep -E "^(FAIL|---)" | grep -v "oneway\|TestMultiConnect\|TestSingleConnect" > /tmp/seed_$ID.suite ); 
+( cd $WT && go test -vet=off -count=1 ./... 2>&1 | grep -E "^--- FAIL" | grep -v "TestMultiConnect\|TestSingleConnect" > /tmp/seed_$ID.suite ); 
 suite=$(wc -l < /tmp/seed_$ID.suite)
 echo "demo on unchanged tree exit=$base (want 0); build=$build (want 0); demo with mutant exit=$mut (want !=0); suite failures other than the two offline tests: $suite (want 0)"
 res=""
